@@ -33,6 +33,8 @@ Expected(ev) ==
     [] ev.op = "pad" -> VAxisOp([n |-> "pad", target |-> a.target, clip |-> a.clip], ev.v, ev.T, a.axis)
     [] ev.op = "comb" -> IF a.n < 1 THEN Err ELSE VAxisOp([n |-> "comb", k |-> a.n, repl |-> a.repl], ev.v, ev.T, a.axis)
     [] ev.op = "reduce" -> VReduce(ev.v, ev.T, a.reducer, a.axis, a.mask, a.keepdims)
+    [] ev.op = "same" -> Ok(ev.v)                                  \* re-encodings (C02, C09): the value is kept
+    [] ev.op = "concatself" -> Ok(VList(ev.v.xs \o ev.v.xs))        \* C08: the elements of the first followed by the second's
     [] ev.op \in {"sort", "argsort"} -> VSort(ev.v, ev.T, a.axis, a.asc, IF ev.op = "argsort" THEN 1 ELSE 0)
 
 SInit == tid = 1 /\ l = 1 /\ rejected = 0 /\ prev = NoPrev
